@@ -259,5 +259,11 @@ JsEditionOK(pvi, pvo, v) == v = 0 \/ pvo <= Max2(pvi, Max2(v, 5))
    no identifier spelling appears that the input did not have, neither as a binding nor as a
    reference (statements may be reordered or merged, so spellings are compared as sets). *)
 JsKeepVarNamesOK(idi, ido, dci, dco) == ToSet(ido) \subseteq ToSet(idi) /\ ToSet(dco) \subseteq ToSet(dci)
-JsPrecisionOK(ni, p, no) == NumsPrecisionOK(ni, p, no)
+(* Precision in JS: documented rewrites introduce numeric literals of their own ("shorten true,
+   false, and undefined to !0, !1 and void 0"), so the input's literals must be found, in
+   order, among the output's (greedy earliest match is complete for order-preserving
+   embeddings), each trimmed as PrecisionOK allows. *)
+JsPrecisionOK(ni, p, no) ==
+  FoldLeft(LAMBDA i, x : IF i <= Len(ni) /\ (~IsNumber(ni[i]) \/ PrecisionOK(ni[i], p, x)) THEN i + 1 ELSE i, 1, no)
+    = Len(ni) + 1
 =============================================================================
